@@ -7,6 +7,7 @@ import (
 	"crypto/x509"
 	"encoding/pem"
 	"fmt"
+	"math/big"
 	"path"
 	"strconv"
 	"time"
@@ -124,12 +125,18 @@ func runC03(r *core.Run) {
 				ra.SerialOverride = usedSerials[r.Intn(len(usedSerials), "colliding-serial")]
 				kind = "c"
 			}
+			if r.Chance(8, "huge-serial?") {
+				// serial numbers are arbitrary-precision: 64 bits and more are legal
+				ra.SerialOverride = 0
+				ra.SerialBig = new(big.Int).Add(new(big.Int).Lsh(big.NewInt(1), uint(63+r.Intn(30, "serial-bits"))), big.NewInt(int64(3+op)))
+				kind = "h"
+			}
 			if r.Chance(8, "root-twin-subject?") {
 				// the operator gives the new signing key the root's own common name and serial: its
 				// certificate's subject then equals its issuer's. It is still a leaf the root issued.
 				if h := a.CheckHealth(a.Now); h.Root != nil {
 					if n, perr := strconv.ParseInt(h.Root.Subject.SerialNumber, 10, 64); perr == nil && n != 0 {
-						ra.SignCN, ra.SerialOverride, kind = h.Root.Subject.CommonName, n, "t"
+						ra.SignCN, ra.SerialOverride, ra.SerialBig, kind = h.Root.Subject.CommonName, n, nil, "t"
 						r.Probe("root-twin-subject-rotation")
 					}
 				}
